@@ -117,6 +117,12 @@ check("C18", "fault_enumeration",
   "Nonces are random (no oracle depends on ciphertext bytes); the plaintext FileCryptoMetaData of encrypted-footer files is not an encrypted module: changes there are only required not to alter rows; AES_GCM_CTR_V1 is not implemented by the library.",
   "DESIGN.md §2 C18")
 
+check("C19", "exploration",
+  "bounded exhaustive enumeration of variant value trees by grammar x shredding schema x write path x read path on the real encoder/decoder, shredded writer and readers, plus all short histories of cursor creation / Next / SeekToRow on the columnar VariantReader; oracle = structural equality with the value written",
+  "Value trees: 37 primitives covering all 21 kinds at their width/length edges, all arrays of <=2 elements and all objects over {a, b, zz} (each absent or one of 4 core values, unsorted insertion order), 2-level nestings with a key shared at two depths, and offset-width edges (255/256 elements, 255/256 keys, 64 KiB strings). Each goes through Encode/Decode, the streaming Builder and Marshal/Unmarshal, and through 23 shredding schemas (unshredded, 13 primitive typed_values, objects with shredded and unshredded fields, nested objects, lists of primitives/objects/lists) x 5 write paths (incl. VariantColumnWriter.WriteValue and its event API with shared field references) x 3 read paths (converted to unshredded, through the file schema, NewReader with a Variant schema). All sequences of <=4 (5 thorough) operations {create cursor a, create cursor b, Next(3), Next(10), SeekToRow(0|7|25)} on a VariantReader are checked against a cursor model.",
+  "Depth <=2 and small field-name pool; values are written raw (metadata/value bytes) so Go-native lossy mappings do not interfere; typed column reads cover one object schema.",
+  "DESIGN.md §2 C19")
+
 NOT_YET = "check not built yet in this round (design in DESIGN.md §2); not claimed until its check exists"
 
 m = {
